@@ -1,3 +1,49 @@
-import Rtcp.Lemmas.Safe6
+/-
+  C17 — String() is total. What is a theorem here (DESIGN §6 C17): the only indexing a hand-written String
+  method performs (REMB's unit table) stays in range for *every* interpretation of the float operations;
+  the enum String functions are total tables. `fmt` and `reflect` are trusted and exercised by the correspondence.
+-/
+import Rtcp.Model.Remb
+import Rtcp.Model.Enum
 namespace Rtcp.C17
+open Rtcp Gen
+set_option linter.unusedSimpArgs false
+
+/-- whatever the float operations do (rounding, NaN, infinities), the index stays inside the table -/
+theorem unit_index_in_range {F : Type} (ge1000 : F → Bool) (div1000 : F → F) (nUnits gas : Nat) (x : F) (p : Nat)
+    (hn : 0 < nUnits) (hp : p < nUnits) : unitLoop ge1000 div1000 nUnits gas x p < nUnits := by
+  induction gas generalizing x p with
+  | zero => exact hp
+  | succ g ih =>
+    unfold unitLoop
+    split
+    · rename_i h; exact ih _ _ (by omega)
+    · exact hp
+
+/-- the concrete model used by the correspondence is an instance: index < 7 for all 2^32 bit patterns -/
+theorem rembUnitIndex_lt (bits : Nat) : rembUnitIndex bits < 7 := by
+  unfold rembUnitIndex
+  split; · omega
+  split; · omega
+  split; · omega
+  split; · omega
+  exact unit_index_in_range _ _ 7 10 _ 0 (by omega) (by omega)
+
+/-- enum String methods: the registered values map to their names, everything else to the default arm -/
+theorem packetType_names :
+    packetTypeString 200 = "SR" ∧ packetTypeString 201 = "RR" ∧ packetTypeString 202 = "SDES" ∧ packetTypeString 203 = "BYE" ∧
+    packetTypeString 204 = "APP" ∧ packetTypeString 205 = "TSFB" ∧ packetTypeString 206 = "PSFB" ∧ packetTypeString 207 = "XR" := by
+  decide
+
+theorem toh_total (t : Nat) : tohString t = "[ToH Missing]" ∨ tohString t = "[ToH = IPv4]" ∨ tohString t = "[ToH = IPv6]" ∨
+    tohString t = "[ToH Flag is Invalid]" := by
+  unfold tohString
+  split; · simp
+  split; · simp
+  split <;> simp
+
+/-- the largest float32 (3.4e38) selects the last unit, "Eb" -/
+example : rembUnitIndex 0x7f7fffff = 6 := by decide
+example : rembUnitIndex 0x447a0000 = 1 := by decide   -- 1000.0 → "Kb"
+
 end Rtcp.C17
